@@ -108,10 +108,10 @@ def replay_stp(model, step_timeout=1.0):
     P = model['params']
     n, buffer_size, close_at, fail_at, fail_kind = P['n'], P['buffer_size'], P['close_at'], P['fail_at'], _kinds(P)[0]
     ctl = Controller()
-    names = ('single_thread_prefetch', 'worker')
-
     def tracer(frame, event, arg):
-        if frame.f_code.co_filename != pu_file or frame.f_code.co_name not in names:
+        # every frame of the function under analysis and of the functions nested in it (worker, helpers), whatever they are called
+        qn = getattr(frame.f_code, 'co_qualname', frame.f_code.co_name)
+        if frame.f_code.co_filename != pu_file or not (qn == 'single_thread_prefetch' or qn.startswith('single_thread_prefetch.')):
             return None
 
         def local(frame, event, arg):
@@ -165,14 +165,16 @@ def replay_stp(model, step_timeout=1.0):
             spawned.append(self)
 
         def run(self):
-            ctl.roles[threading.get_ident()] = 'worker'
+            # the model names the thread after its target function
+            role = getattr(getattr(self, '_target', None), '__name__', 'worker')
+            ctl.roles[threading.get_ident()] = role
             sys.settrace(tracer)
             try:
                 super().run()
             finally:
                 sys.settrace(None)
                 self._verif_done = True
-                ctl.done('worker')
+                ctl.done(role)
 
         def is_alive(self):
             # "finished" in the model = the target function has returned (thread teardown is not a step)
@@ -213,7 +215,7 @@ def replay_stp(model, step_timeout=1.0):
         deadline = time.time() + 3.0
         while time.time() < deadline:
             busy = False
-            for r in ('$main', 'worker'):
+            for r in ['$main'] + sorted(x for x in set(ctl.roles.values()) if x != '$main'):
                 w = ctl.wait_gated(r, timeout=0.02)
                 if w not in ('done', None):
                     ctl.release(r)
@@ -333,10 +335,10 @@ def replay_lpm_thread(model, step_timeout=1.0):
     n, B, Wk, close_at = P['n'], P['buffer_size'], P['max_workers'], P['close_at']
     fail_at, fail_kind, taskfail, taskfail_kind = P['fail_at'], _kinds(P)[0], P['taskfail'], _kinds(P)[1]
     ctl = Controller()
-    names = ('lazy_parallel_map', 'submit', 'result', 'terminate')
 
     def tracer(frame, event, arg):
-        if frame.f_code.co_filename != pu_file or frame.f_code.co_name not in names:
+        qn = getattr(frame.f_code, 'co_qualname', frame.f_code.co_name)
+        if frame.f_code.co_filename != pu_file or not (qn == 'lazy_parallel_map' or qn.startswith('lazy_parallel_map.')):
             return None
 
         def local(frame, event, arg):
